@@ -345,25 +345,45 @@ func (e *Engine) intrinsic(st *State, f *Frame, x ssa.Value, callee *ssa.Functio
 		switch name {
 		case "Is":
 			// identity, or identity of the error wrapped in an `Err` field of a type with an Unwrap method
-			// (strconv.NumError, fs.PathError, net.OpError ...), up to 3 levels
-			cur := args[0]
-			res := b.False()
-			for lvl := 0; lvl < 3; lvl++ {
+			// (strconv.NumError, fs.PathError, net.OpError ...), up to 3 levels; Unions are followed per alternative
+			var isRec func(cur Val, lvl int) *Term
+			isRec = func(cur Val, lvl int) *Term {
+				if u, ok := cur.(Union); ok {
+					r := b.False()
+					for _, al := range u.alts {
+						t := isRec(al.v, lvl)
+						if t == nil {
+							return nil
+						}
+						r = b.Or(r, b.And(al.g, t))
+					}
+					return r
+				}
 				e.curPoison = ""
 				t := e.eqVal(cur, args[1])
 				if t == nil {
-					return ret(Poison{"errors.Is: " + e.curPoison})
+					return nil
 				}
-				res = b.Or(res, t)
+				if lvl >= 3 {
+					return t
+				}
 				iv, ok := cur.(IfaceV)
 				if !ok || iv.dyn == nil {
-					break
+					return t
 				}
 				next, ok := e.unwrapErr(st, iv, pos)
 				if !ok {
-					break
+					return t
 				}
-				cur = next
+				t2 := isRec(next, lvl+1)
+				if t2 == nil {
+					return nil
+				}
+				return b.Or(t, t2)
+			}
+			res := isRec(args[0], 0)
+			if res == nil {
+				return ret(Poison{"errors.Is: " + e.curPoison})
 			}
 			return ret(Scalar{res})
 		case "Join":
